@@ -84,6 +84,7 @@ func (m *c14) Apply(op seqmc.Op) (string, string) {
 	case "iterate", "iterate+del", "iterate+stop":
 		seen := map[*conn]int{}
 		visits := 0
+		countMsg := ""
 		m.cm.iterate(func(c *conn) bool {
 			seen[c]++
 			visits++
@@ -91,11 +92,19 @@ func (m *c14) Apply(op seqmc.Op) (string, string) {
 				m.cm.delConn(c)
 				delete(m.live, c.fd)
 			}
+			// the count is also right while an iteration is under way (CountConnections reads it
+			// while the shutdown iteration removes connections)
+			if n := int(m.cm.loadCount()); n != len(m.live) && countMsg == "" {
+				countMsg = fmt.Sprintf("%s: after %d visits the count is %d with %d live connections", op.N, visits, n, len(m.live))
+			}
 			if op.N == "iterate+stop" && visits >= op.A[0] {
 				return false
 			}
 			return true
 		})
+		if countMsg != "" {
+			return countMsg, c14Variant + ":" + op.N + ":count-during"
+		}
 		for c, n := range seen {
 			if n != 1 {
 				return fmt.Sprintf("%s visited fd %d %d times", op.N, c.fd, n), c14Variant + ":" + op.N + ":twice"
